@@ -563,6 +563,64 @@ func c37CoinSubs(c *Ctx, fns []*ssa.Function, reach map[*ssa.Function]string) {
 		}
 	}
 	c.Note("C37g/summary", "-", itoa(n)+" panicking coin subtractions under block processing")
+	// the same hazard in constructor form: NewCoin(denom, a.Sub(b)) panics on a negative difference
+	nNew := 0
+	for _, f := range fns {
+		k := 0
+		for _, b := range f.Blocks {
+			if b == f.Recover {
+				continue
+			}
+			for _, in := range b.Instrs {
+				call := ir.CallOf(in)
+				if call == nil || calleeOrAliasCoin(call) != "NewCoin" || len(call.Args) != 2 {
+					continue
+				}
+				amt, ok := unconv(call.Args[1]).(*ssa.Call)
+				if !ok {
+					continue
+				}
+				an := ir.CalleeName(&amt.Call)
+				if an != "cosmossdk.io/math.Int.Sub" && an != "cosmossdk.io/math.Int.SubRaw" {
+					continue
+				}
+				nNew++
+				k++
+				key := ir.FuncName(f) + "/NewCoin(difference)"
+				if k > 1 {
+					key += "#" + itoa(k)
+				}
+				x, y := ir.Desc(amt.Call.Args[0]), ir.Desc(amt.Call.Args[1])
+				guarded := ""
+				for _, g := range ir.Guards(in) {
+					if (strings.Contains(g.Fact, ".GTE)(") || strings.Contains(g.Fact, ".LT)(") || strings.Contains(g.Fact, ".GT)(") || strings.Contains(g.Fact, ".LTE)(")) && !strings.Contains(x, "…") && strings.Contains(g.Fact, trunc(x, 60)) && strings.Contains(g.Fact, trunc(strings.TrimSuffix(y, ")"), 40)) {
+						guarded = g.Fact
+					}
+				}
+				if why, ok := c37CoinSubAudited[key]; ok {
+					c.Audit("C37g/"+key, c.P.InstrPos(in), why)
+				} else if guarded != "" {
+					c.OK("C37g/"+key, c.P.InstrPos(in), "dominated by "+trunc(guarded, 140))
+				} else {
+					c.Fail("C37g/"+key, c.P.InstrPos(in), "NewCoin of the difference "+trunc(x, 70)+" − "+trunc(y, 70)+" reachable from block processing ("+reach[f]+") without a dominating comparison of the two: a negative difference panics ('negative coin amount') and halts the chain")
+				}
+			}
+		}
+	}
+	c.Note("C37g/summary-NewCoin", "-", itoa(nNew)+" NewCoin(difference) sites under block processing")
+}
+
+// calleeOrAliasCoin: "NewCoin" for sdk.NewCoin called directly or through an alias variable.
+func calleeOrAliasCoin(call *ssa.CallCommon) string {
+	if n := ir.CalleeName(call); n == "github.com/cosmos/cosmos-sdk/types.NewCoin" {
+		return "NewCoin"
+	}
+	if ld, ok := call.Value.(*ssa.UnOp); ok && ld.Op == token.MUL {
+		if g, ok := ld.X.(*ssa.Global); ok && g.Name() == "NewCoin" {
+			return "NewCoin"
+		}
+	}
+	return ""
 }
 
 // c37CoinSubAudited: panicking coin subtractions under block processing, each confirmed
